@@ -48,17 +48,25 @@ CheckStr(k) ==
      /\ (o.raised <=> ~ValidModeRef(o.s)) \/ Say("str", k, "ref-mode-language")
      /\ (o.raised <=> CheckModeAlg(o.s) # "ok") \/ Say("str", k, "alg")
 
-ToProg(j) == [dirs |-> j.dirs, first |-> j.first, start |-> j.start, entry |-> j.entry, fail |-> j.fail]
+ToProg(j) == [dirs |-> j.dirs, tdirs |-> j.tdirs, xdirs |-> j.xdirs, place |-> j.place, first |-> j.first, start |-> j.start, entry |-> j.entry, fail |-> j.fail]
 CheckCwd(k) ==
   LET o == CObs[k]
       p == ToProg(o.p)
       r == CRun(p)
       ch == Chdirs(r.log)
+      obsres == {<<o.resolved[j][1], o.resolved[j][2]>> : j \in 1..Len(o.resolved)}
+      \* the real code did exactly what the Alg layer predicts (outcome, and on success where every value was resolved)
+      asalg == ((o.out = "raise") <=> r.exc) /\ (o.out = "ok" => obsres = Resolved(p, r.log))
+      dev == IF CwdDevName(p) # "none" /\ asalg THEN "ref-as:" \o CwdDevName(p) ELSE "none"
   IN /\ (o.cwd_ok /\ o.cpd_ok) \/ Say("cwd", k, "ref-cwd-restored")
-     /\ (\A j \in 1..Len(o.resolved) : o.resolved[j][2] = p.dirs[o.resolved[j][1]]) \/ Say("cwd", k, "ref-resolve")
+     \* every value is resolved next to the file that holds it AS NAMED (next to the link, not next to its target)
+     /\ (\A j \in 1..Len(o.resolved) : o.resolved[j][2] = p.dirs[o.resolved[j][1]]) \/ Say("cwd", k, IF dev # "none" THEN dev ELSE "ref-resolve")
      /\ (o.out = "ok" => Len(o.resolved) = NLevels(p)) \/ Say("cwd", k, "ref-resolve-missing")
-     /\ (CwdRestored(p, r) /\ ResolvesInFileDir(p, r.log)) \/ Say("cwd", k, "model")
+     \* accepted iff nothing was planted and every value's file exists next to the file as named
+     /\ ((o.out = "raise") <=> RefRaises(p)) \/ Say("cwd", k, IF dev # "none" THEN dev ELSE "ref-outcome")
+     /\ (CwdRestored(p, r) /\ (~DotDotTextual(p) => (ResolvesInFileDir(p, r.log) /\ (r.exc <=> RefRaises(p))))) \/ Say("cwd", k, "model")
      /\ ((o.out = "raise") <=> r.exc) \/ Say("cwd", k, "alg-outcome")
+     /\ (o.out = "ok" => obsres = Resolved(p, r.log)) \/ Say("cwd", k, "alg-resolved")
      /\ (o.chdirs = [j \in 1..Len(ch) |-> ch[j][3]]) \/ Say("cwd", k, "alg-chdirs")
 
 Check == IF i <= NM THEN CheckMode(i) ELSE IF i <= NM + NS THEN CheckStr(i - NM) ELSE CheckCwd(i - NM - NS)
